@@ -11,6 +11,36 @@ INC = [os.path.join(core.REPO, "include", "SQuIDS"), os.path.join(core.VERIF, "s
 FACT = ["Projector", "Identity", "PosProjector", "NegProjector", "Generator"]
 
 
+def run_factories(rep, pid, bdir=None, ctext=None, all_jobs=False):
+    """the five factories (and, for C13 itself, make_aligned / destructor / default constructor) under their DFCC contracts, recorded for property `pid`"""
+    if bdir is None:
+        bdir = core.builddir(pid + ".factories")
+    if ctext is None:
+        ctext = extract.instantiate(open(os.path.join(core.VERIF, "contracts", "C13_l1.c")).read(), rep)
+    jobs = []
+    for f in FACT:
+        jobs.append(l1.Job(f, ctext, "h_" + f, enforce=f, replace=["su_make_aligned", "ComponentsFromMatrices", "su_dtor"], loops=(f != "Generator"),
+                           includes=INC, timeout=600, where="src/SUNalg.cpp " + f, function_label="SU_vector::" + f))
+    if all_jobs:
+        jobs.append(l1.Job("make_aligned", ctext, "h_su_make_aligned", enforce="su_make_aligned", replace=["su_ctor_default", "su_alloc_aligned", "sq_filln", "su_dtor"],
+                           includes=INC, timeout=600, where="src/SUNalg.cpp make_aligned", function_label="SU_vector::make_aligned"))
+        jobs.append(l1.Job("dtor", ctext, "h_su_dtor", enforce="su_dtor", replace=["su_deallocate_mem"],
+                           includes=INC, timeout=300, where="include/SQuIDS/SUNalg.h ~SU_vector", function_label="SU_vector::~SU_vector()"))
+        jobs.append(l1.Job("ctor_default", ctext, "h_su_ctor_default", enforce="su_ctor_default", includes=INC, timeout=300,
+                           where="src/SUNalg.cpp SU_vector()", function_label="SU_vector::SU_vector()"))
+    results = core.pmap(lambda j: l1.run_job(j, bdir), jobs)
+    for r in results:
+        failed = l1.record(rep, r, pid)
+        for p in failed:
+            oid = "%s.%s.%s" % (pid, r.job.name, p.name)
+            ins = l1.trace_inputs(p.trace, r'^(d|ii|dim|zero_fill|GI|GJ|gk)$')
+            data = dict(obligation=p.name, description=p.desc, location=p.loc, verifier="cbmc/dfcc", cex=ins,
+                        witness=dict(family="factory", d=_num(ins.get("d", ins.get("dim", 3))), seed=core.SEED))
+            path = core.write_replay(pid, oid, data)
+            ok = replaylib.run_replay(pid, path, prog="algebra") if r.job.name in FACT else False
+            rep.violation(oid, path, nofail=not ok)
+
+
 def run(rep, tier):
     bdir, inc2 = l2.std_setup(rep, "C13")
     ctext = extract.instantiate(open(os.path.join(core.VERIF, "contracts", "C13_l1.c")).read(), rep)
@@ -20,27 +50,7 @@ def run(rep, tier):
     rep.assume("std::fill: assumed contract (libstdc++); alloc_aligned/deallocate_mem: abstract contracts of spec/su_l1.h (hidden alignment offset abstracted into a ghost table; their bodies are verified against the concrete layout in C08/C15)")
     rep.assume("the vector that ComponentsFromMatrices produces from the observed 0/1 matrix is Phi(matrix): Layer-2 obligations frommatrix.cfm (same kernels)")
     rep.trust("CBMC 6.11 DFCC instrumentation and SAT back end")
-    jobs = []
-    for f in FACT:
-        jobs.append(l1.Job(f, ctext, "h_" + f, enforce=f, replace=["su_make_aligned", "ComponentsFromMatrices", "su_dtor"], loops=(f != "Generator"),
-                           includes=INC, timeout=600, where="src/SUNalg.cpp " + f, function_label="SU_vector::" + f))
-    jobs.append(l1.Job("make_aligned", ctext, "h_su_make_aligned", enforce="su_make_aligned", replace=["su_ctor_default", "su_alloc_aligned", "sq_filln", "su_dtor"],
-                       includes=INC, timeout=600, where="src/SUNalg.cpp make_aligned", function_label="SU_vector::make_aligned"))
-    jobs.append(l1.Job("dtor", ctext, "h_su_dtor", enforce="su_dtor", replace=["su_deallocate_mem"],
-                       includes=INC, timeout=300, where="include/SQuIDS/SUNalg.h ~SU_vector", function_label="SU_vector::~SU_vector()"))
-    jobs.append(l1.Job("ctor_default", ctext, "h_su_ctor_default", enforce="su_ctor_default", includes=INC, timeout=300,
-                       where="src/SUNalg.cpp SU_vector()", function_label="SU_vector::SU_vector()"))
-    results = core.pmap(lambda j: l1.run_job(j, bdir), jobs)
-    for r in results:
-        failed = l1.record(rep, r, "C13")
-        for p in failed:
-            oid = "C13.%s.%s" % (r.job.name, p.name)
-            ins = l1.trace_inputs(p.trace, r'^(d|ii|dim|zero_fill|GI|GJ|gk)$')
-            data = dict(obligation=p.name, description=p.desc, location=p.loc, verifier="cbmc/dfcc", cex=ins,
-                        witness=dict(family="factory", d=_num(ins.get("d", ins.get("dim", 3))), seed=core.SEED))
-            path = core.write_replay("C13", oid, data)
-            ok = replaylib.run_replay("C13", path, prog="algebra") if r.job.name in FACT else False
-            rep.violation(oid, path, nofail=not ok)
+    run_factories(rep, "C13", bdir, ctext, all_jobs=True)
     # Layer 2: value contract of ComponentsFromMatrices
     c01 = extract.instantiate(open(os.path.join(core.VERIF, "contracts", "C01_l2.c")).read(), rep)
     qs = [l2.Query("frommatrix.cfm.d%d" % d, c01, ["D=%d" % d, "WHAT=3"], timeout=120, function="ComponentsFromMatrices + MatrixToSU%d.txt" % d,
